@@ -35,6 +35,7 @@ RULE = (
     ' Round 6: lost-link cases reconnect on the same object and read from the new connection; duplex cases issue 2-3 concurrent writes under back-pressure (bytes must be the lines in call order).'
     ' Round 7: cases also run with the library at DEBUG; use after a failed connect must raise a transport error.'
     ' Round 8: `cancel_read k`; read-side EOF followed by a write on the open connection.'
+    ' Round 13: `pty` kind (SerialTransport on a real pseudo terminal: control characters in both directions, the device unplugged before disconnect).'
     ' Round 12: a write that neither returns nor raises within 20 s of real time on a socket pair is reported (write-hangs); `connect_delay` (the connection takes virtual seconds to minutes to open).'
     ' Round 11: duplex sessions in which written lines come back on the incoming stream; `gap` (virtual minutes to days pass before the awaited line arrives).'
     ' Round 9: the in-memory transport keeps the written objects by reference; EAGAIN/EINTR/ENOSPC/... among link errors.'
@@ -169,6 +170,11 @@ def strategy(tier: str):
 def enumerate_cases(tier: str):
     yield from _fault_cases()
     yield from _duplex_enumerated()
+    # a real pseudo terminal under SerialTransport: control characters the tty layer could interpret, both ways; unplugged at the end
+    for end in ("disconnect", "hangup"):
+        yield {"kind": "pty", "lines": list(PTY_LINES), "writes": list(PTY_LINES[:8]), "end": end}
+        yield {"kind": "pty", "lines": [], "writes": [], "end": end}
+        yield {"kind": "pty", "lines": ["1;1;1;0;0;1"], "writes": ["1;1;1;0;2;1"], "end": end}
     for case in _fault_cases():
         yield dict(case, debug_log=True)
     # every kind of line with the library logging at DEBUG (what the CLI does), on every transport class
@@ -466,6 +472,80 @@ def _run_write(case: dict) -> Outcome:
         bad.classes = classes
         return bad
     return Outcome(ok=True, nontrivial=nonascii or closes_after is not None or len(writes) > 1, classes=classes)
+
+
+PTY_LINES = ("1;1;1;0;0;20.5", "a\x11b", "\x13", "x\x11\x13y", "\x03", "a\x04b", "\x7f", "\x1a", "a\rb", "\x00", "\x1b[A", "\x15", "\x16\x17", "åäö", "\x08", "\x0c", "\x1c")
+
+
+def _run_pty(case: dict) -> Outcome:
+    """SerialTransport on a real pseudo terminal (pyserial + serial_asyncio, no stubbed factory): what the other end writes is what
+    read returns, byte for byte - the tty layer between them is configured by the library and must not eat or rewrite anything."""
+    import errno as _errno
+
+    classes = ("pty", f"end={case['end']}")
+
+    async def go() -> Outcome | None:
+        master, slave = os.openpty()
+        os.set_blocking(master, False)
+        transport = SerialTransport(os.ttyname(slave), 115200)
+        try:
+            try:
+                await asyncio.wait_for(transport.connect(), 20)
+            except Exception as err:  # noqa: BLE001
+                return fail(f"pty:connect-raises:{type(err).__name__}", f"connect to a pseudo terminal raised {err!r}", classes=classes)
+            for text in case["lines"]:
+                data = (text + "\n").encode("utf-8")
+                os.write(master, data)
+                try:
+                    got = await asyncio.wait_for(transport.read(), 20)
+                except asyncio.TimeoutError:
+                    return fail("pty:read-hangs", f"{data!r} was written to the other end of the terminal; read never returned", classes=classes)
+                except Exception as err:  # noqa: BLE001
+                    return fail(f"pty:read-raises:{type(err).__name__}", f"{data!r} was written to the other end; read raised {err!r}", classes=classes)
+                if got != text + "\n":
+                    return fail("pty:read-differs", f"the other end of the terminal wrote {data!r}; read returned {got!r}", classes=classes)
+            for text in case["writes"]:
+                want = (text + "\n").encode("utf-8")
+                try:
+                    await asyncio.wait_for(transport.write(text + "\n"), 20)
+                except Exception as err:  # noqa: BLE001
+                    return fail(f"pty:write-raises:{type(err).__name__}", f"write of {text!r} raised {err!r}", classes=classes)
+                seen = b""
+                for _ in range(2000):
+                    try:
+                        seen += os.read(master, 65536)
+                    except BlockingIOError:
+                        pass
+                    if len(seen) >= len(want):
+                        break
+                    await asyncio.sleep(0.001)
+                if seen != want:
+                    return fail("pty:write-differs", f"write of {text!r}: the other end of the terminal received {seen!r}", classes=classes)
+            if case["end"] == "hangup":
+                os.close(master)  # the device is unplugged
+                master = -1
+            try:
+                await asyncio.wait_for(transport.disconnect(), 20)
+            except TransportError:
+                pass
+            except asyncio.TimeoutError:
+                return fail("pty:disconnect-hangs", f"disconnect ({case['end']}) never returned", classes=classes)
+            except BaseException as err:  # noqa: BLE001
+                return fail(f"pty:disconnect-raises:{type(err).__name__}", f"disconnect ({case['end']}) raised {err!r}", classes=classes)
+            return None
+        finally:
+            for fd in (master, slave):
+                if fd >= 0:
+                    try:
+                        os.close(fd)
+                    except OSError as err:
+                        if err.errno != _errno.EBADF:
+                            raise
+
+    bad = env.run(go())
+    if bad is not None:
+        return bad
+    return Outcome(ok=True, nontrivial=True, classes=classes)
 
 
 def _run_duplex(case: dict) -> Outcome:
@@ -814,6 +894,8 @@ def run_case(case: dict) -> Outcome:
 def _run_case(case: dict) -> Outcome:
     if case["kind"] == "duplex":
         return _run_duplex(case)
+    if case["kind"] == "pty":
+        return _run_pty(case)
     if case["kind"] == "read":
         return _run_read(case)
     if case["kind"] == "write":
